@@ -156,7 +156,7 @@ def run(ctx):
         "heap bound checked: library peak <= %d*(input + expanded character data and attributes)+%d" % (HEAP_LIN, HEAP_C0),
     ]
     bad = common.forbidden_scan()
-    cres = common.coq_properties([PID, "C02_front", "C02_front3", "C02_front4", "C02_conv"])
+    cres = common.coq_properties([PID, "C02_front", "C02_front3", "C02_front4", "C02_front5", "C02_conv"])
     common.proof_coverage(ctx, cres)
     proof_broken = (not cres["ok"]) or bool(bad)
     tables = gen.tables_json()
